@@ -134,6 +134,36 @@ func (c *senderCtx) appendedElems(in ssa.Instruction) ([]ssa.Value, bool) {
 	if !ok {
 		return nil, false
 	}
+	// a named piece of the loop that appends its argument: the call stands for the append
+	if h := core.ResolveCall(call).Callee; h != nil && h != call.Parent() && c.isLoopHelper(h) {
+		var out []ssa.Value
+		for _, hin := range core.Instrs(h) {
+			el, ok := c.appendedElems(hin)
+			if !ok {
+				continue
+			}
+			for _, e := range el {
+				e = core.Unwrap(e)
+				if u, isLd := e.(*ssa.UnOp); isLd && u.Op == token.MUL {
+					// a parameter spilled to a cell
+					if cell := core.Cell(u.X); cell != nil {
+						for _, st := range core.CellStores(cell) {
+							e = core.Unwrap(st.Val)
+						}
+					}
+				}
+				for k, par := range h.Params {
+					if ssa.Value(par) == e && k < len(call.Call.Args) {
+						out = append(out, call.Call.Args[k])
+					}
+				}
+			}
+		}
+		if len(out) > 0 {
+			return out, true
+		}
+		return nil, false
+	}
 	b, ok := call.Call.Value.(*ssa.Builtin)
 	if !ok || b.Name() != "append" || len(call.Call.Args) != 2 {
 		return nil, false
@@ -1572,4 +1602,26 @@ func ruleOffsetWithRunId(w *core.World, r *core.Report, c *senderCtx) {
 		return
 	}
 	r.Check(bad == "" && n > 0, "sendCmdsBatch/offset-with-run-id", badPos, "%s", bad)
+}
+
+
+// isLoopHelper: a closure of the sender (other than the batch sender and its
+// retry wrapper) that is called from the main loop only: statements of the loop
+// that were given a name.
+func (c *senderCtx) isLoopHelper(f *ssa.Function) bool {
+	if f == nil || f.Parent() != c.main || f == c.once || f == c.send {
+		return false
+	}
+	called := false
+	for _, g := range core.DeepFuncs(c.main) {
+		for _, s := range core.Sites(g, false) {
+			if s.Callee == f {
+				if g != c.main {
+					return false
+				}
+				called = true
+			}
+		}
+	}
+	return called
 }
